@@ -143,7 +143,8 @@ func c26Gen(runSeed uint64, tier string) *gen.Scenario {
 		}
 		if r.Kind == "Write" {
 			// which types the write touches: bit 0 module0, bit 1 module1, bit 2 the type without module
-			r.Conc = gen.Pick(g, []int{1, 2, 3, 4, 5, 1, 2})
+			// bit 3: m0#audit, a relation of module1 on a type of module0 (listed after the m0#member tuple)
+			r.Conc = gen.Pick(g, []int{1, 2, 3, 4, 5, 1, 2, 8, 9, 9, 10})
 		}
 		sc.Requests = append(sc.Requests, r)
 	}
@@ -164,7 +165,11 @@ func targetModel() *openfgav1.AuthorizationModel {
 		}
 		return &openfgav1.TypeDefinition{Type: name, Relations: map[string]*openfgav1.Userset{"member": {Userset: &openfgav1.Userset_This{This: &openfgav1.DirectUserset{}}}}, Metadata: md}
 	}
-	return &openfgav1.AuthorizationModel{SchemaVersion: "1.1", TypeDefinitions: []*openfgav1.TypeDefinition{{Type: "user"}, td("m0", "module0"), td("m1", "module1"), td("plain", "")}}
+	m0 := td("m0", "module0")
+	// a relation that another module adds to the type: it belongs to that module, not to the type's
+	m0.Relations["audit"] = &openfgav1.Userset{Userset: &openfgav1.Userset_This{This: &openfgav1.DirectUserset{}}}
+	m0.Metadata.Relations["audit"] = &openfgav1.RelationMetadata{Module: "module1", DirectlyRelatedUserTypes: []*openfgav1.RelationReference{{Type: "user"}}}
+	return &openfgav1.AuthorizationModel{SchemaVersion: "1.1", TypeDefinitions: []*openfgav1.TypeDefinition{{Type: "user"}, m0, td("m1", "module1"), td("plain", "")}}
 }
 
 const forbiddenCode = uint32(openfgav1.AuthErrorCode_forbidden)
@@ -246,7 +251,7 @@ func c26Exec(t *testing.T, sc *gen.Scenario, trace bool) *harness.Outcome {
 				if rq.Conc&1 != 0 {
 					mods = append(mods, "module0")
 				}
-				if rq.Conc&2 != 0 {
+				if rq.Conc&2 != 0 || rq.Conc&8 != 0 {
 					mods = append(mods, "module1")
 				}
 				if !want && rq.User != "" && rq.Conc&4 == 0 && len(mods) == 1 {
@@ -289,6 +294,9 @@ func c26Exec(t *testing.T, sc *gen.Scenario, trace bool) *harness.Outcome {
 					u := fmt.Sprintf("user:w%d", i)
 					if rq.Conc&1 != 0 {
 						tks = append(tks, &openfgav1.TupleKey{Object: "m0:9", Relation: "member", User: u})
+					}
+					if rq.Conc&8 != 0 {
+						tks = append(tks, &openfgav1.TupleKey{Object: "m0:9", Relation: "audit", User: u})
 					}
 					if rq.Conc&2 != 0 {
 						tks = append(tks, &openfgav1.TupleKey{Object: "m1:9", Relation: "member", User: u})
